@@ -1052,6 +1052,45 @@ pub fn small_program(p: &mut Prng) -> String {
     }
     let b = format!("({} < {})", pickv(p), pickv(p));
     let b2 = format!("({} == {})", pickv(p), pickv(p));
+    if p.chance(1, 5) {
+        // a small DAG of Boolean gates g0..gk and a tuple of 2..5 of them, with repetition, in
+        // ascending or random order: repeated outputs, outputs that feed later outputs, outputs
+        // that already sit at the end of the wire list, non-output gates between outputs
+        let k = p.range(2, 4) as usize;
+        let bools: Vec<String> = params
+            .iter()
+            .filter(|(_, t)| !t.contains("; 0]") && *t != "()")
+            .map(|(n, t)| if *t == "bool" { n.clone() } else { format!("({n} > {}{t})", p.below(3)) })
+            .collect();
+        let mut names: Vec<String> = vec![];
+        let mut lets = String::new();
+        for i in 0..k {
+            let pick = |p: &mut Prng, names: &Vec<String>| -> String {
+                if !names.is_empty() && p.chance(1, 2) {
+                    names[p.usize_below(names.len())].clone()
+                } else {
+                    bools[p.usize_below(bools.len())].clone()
+                }
+            };
+            let a = pick(p, &names);
+            let b2 = pick(p, &names);
+            let op = *p.pick(&["&", "^", "|", "&"]);
+            lets.push_str(&format!("let g{i} = {a} {op} {b2}; "));
+            names.push(format!("g{i}"));
+        }
+        let n = p.range(2, 5) as usize;
+        let mut idx: Vec<usize> = (0..n).map(|_| p.usize_below(k)).collect();
+        if p.chance(1, 2) {
+            idx.sort();
+        }
+        if p.chance(1, 2) {
+            // make sure the last gate is the last output
+            *idx.last_mut().unwrap() = k - 1;
+        }
+        let ret = format!("({})", vec!["bool"; n].join(", "));
+        let tuple = idx.iter().map(|i| format!("g{i}")).collect::<Vec<_>>().join(", ");
+        return format!("pub fn main({sig}) -> {ret} {{\n    {lets}({tuple})\n}}\n");
+    }
     let (ret, body) = match p.below(18) {
         0 => ("(u8, u8)".to_string(), format!("let v = {e}; (v, v)")),
         1 => ("[u8; 3]".to_string(), format!("let v = {e}; [v; 3]")),
